@@ -80,34 +80,22 @@ Theorem C01_converter_channel :
 Proof. exact chan_converter. Qed.
 Print Assumptions C01_converter_channel.
 
-(* FULL STATEMENT (refuted on the pinned code):
-     forall vs, (no allowDefaultOwner in vs) -> smem ANTIOWNER (setValues init_caps vs) = true.
-   Proved instead: on the domain of values that do not contain `owner`, and the witness. *)
-Theorem C01_default_owner_on_domain :
-  forall init vs, owner_safe init = true -> dom_values vs = true -> owner_safe (setValues init vs) = true.
-Proof. exact default_owner_on_domain. Qed.
-Print Assumptions C01_default_owner_on_domain.
+(* For EVERY sequence of DefaultCapabilities.setValue calls without allowDefaultOwner -- whatever the
+   value lists, `owner` included -- the stored set holds -owner and does not hold owner.
+   (Was refuted on the pinned code by setValue(['owner']): finding C01.a, repaired in src/ircdb.py.) *)
+Theorem C01_default_owner :
+  forall init vs, owner_safe init = true -> no_allow vs = true -> owner_safe (setValues init vs) = true.
+Proof. exact default_owner. Qed.
+Print Assumptions C01_default_owner.
 
-Theorem C01_default_owner_refuted :
-  exists vs, forallb (fun va => negb (snd va)) vs = true /\ dom_values vs = false /\
-             smem ANTIOWNER (setValues init_caps vs) = false /\
-             holds (Db None false [] (setValues init_caps vs) [] true) OWNER = Ok true.
-Proof. exact default_owner_refuted. Qed.
-Print Assumptions C01_default_owner_refuted.
-
-(* what does hold for every sequence of setValue calls: -owner or owner is in the set *)
-Theorem C01_default_owner_entry :
-  forall init vs, owner_entry init = true -> forallb (fun va => negb (snd va)) vs = true ->
-                  owner_entry (setValues init vs) = true.
-Proof. exact default_owner_entry. Qed.
-Print Assumptions C01_default_owner_entry.
-
-(* hence an unknown caller (or a secure account recognised only by login) never passes `owner` *)
+(* hence an unknown caller (or a secure account recognised only by login) never passes `owner`,
+   whatever setValue calls configured the default set from the registered default *)
 Theorem C01_unknown_never_owner :
-  forall d,
+  forall d vs,
     (d_user d = None \/ exists u, d_user d = Some u /\ u_secure u = true /\ d_hostok d = false) ->
-    owner_safe (d_defaults d) = true -> holds d OWNER = Ok false.
-Proof. exact unknown_never_owner. Qed.
+    no_allow vs = true -> d_defaults d = setValues init_caps vs ->
+    holds d OWNER = Ok false.
+Proof. exact unknown_never_owner_reachable. Qed.
 Print Assumptions C01_unknown_never_owner.
 
 Theorem C01_nonowner_never_owner :
